@@ -872,4 +872,18 @@ example : (runSched sys (initCfg sampleScripts3) sampleSched3).1.tr =
       (witness (histOf (runSched sys (initCfg sampleScripts3) sampleSched3).1.tr)) = true := by
   decide
 
+/-- The hypotheses of `C05_iterate_one_instant`, `C05_closed_answer_means_no_effect` and `C05_no_effect_after_close` are
+satisfiable: the first sample run has an Iterate point (position 7, between invocation 5 and response 8 of call 1 of
+goroutine 1); in the third one call 1 of goroutine 1 answers `closed`, and it was invoked (position 8) after the `Close`
+point (position 5). -/
+example : (runSched sys (initCfg sampleScripts) sampleSched).1.tr[7]? =
+      some (.lin 1 1 (.eff (.iter [1] 0 .bwd 0)) (.kvs [([1, 255], [7])])) ∧
+    invPos (runSched sys (initCfg sampleScripts) sampleSched).1.tr 1 1 = 5 ∧
+    retPos (runSched sys (initCfg sampleScripts) sampleSched).1.tr 1 1 = 8 ∧
+    Ev.ret 1 1 .closed ∈ (runSched sys (initCfg sampleScripts3) sampleSched3).1.tr ∧
+    (runSched sys (initCfg sampleScripts3) sampleSched3).1.tr[5]? = some (.lin 1 0 .close .ok) ∧
+    isCloseLin (.lin 1 0 .close .ok) = true ∧
+    invPos (runSched sys (initCfg sampleScripts3) sampleSched3).1.tr 1 1 = 8 := by
+  decide
+
 end Hive.KV.Conc
